@@ -41,8 +41,8 @@ type vclock struct {
 	feat           map[string]bool
 	traceSeen      int
 	dead           map[string]bool // timers the engine has stopped (EventTimer.Stop is terminal)
-	asked          map[string]int // TestReqIDs received so far (every inbound TestRequest, whatever its number)
-	answered       map[string]int // Heartbeats sent carrying that TestReqID
+	asked          map[string]int  // TestReqIDs received so far (every inbound TestRequest, whatever its number)
+	answered       map[string]int  // Heartbeats sent carrying that TestReqID
 	resendBefore   struct {
 		in                 bool
 		stash              []int
